@@ -286,6 +286,10 @@ PREEMPT_STATEMENTS = {
     'balancesB': ("BALANCES AT cost WHERE account ~ 'Expenses'", None),
     'opendates': ('SELECT account, open_date(account) AS d, account_sortkey(account) AS k, possign(number, account) AS s', None),
     'opendates2': ('SELECT DISTINCT account, open_date(account) AS d, close_date(account) AS c ORDER BY account', None),
+    'order2': ('SELECT account, number, narration ORDER BY account, number', None),
+    'order2b': ('SELECT account, number, date ORDER BY account, number', None),
+    'convert': ("SELECT account, convert(position, 'EUR') AS c, getprice('EUR', 'USD') AS p", None),
+    'convert2': ("SELECT account, value(position) AS v, convert(position, 'EUR', 2019-02-01) AS c WHERE number > 0", None),
 }
 
 
@@ -302,7 +306,9 @@ def preempt_ledger(variant=0):
                     narration='lunch' + long, flag='!', lineno=21)
     t3 = ledger.txn(datetime.date(2019, 2, 1), [ledger.posting('Expenses:Food', D('8.00'), 'USD'),
                                                 ledger.posting('Liabilities:Card', D('-8.00'), 'USD')], narration='dinner' + long, lineno=22)
-    return opens + [t1, t2, t3]
+    prices = [data.Price(ledger.meta(90), datetime.date(2019, 1, 1), 'EUR', A(D('1.25'), 'USD')),
+              data.Price(ledger.meta(91), datetime.date(2019, 1, 20), 'EUR', A(D('1.20'), 'USD'))]
+    return opens + prices + [t1, t2, t3]
 
 
 def _outcome(conn, stmt):
@@ -433,5 +439,7 @@ for _a, _b in _QUICK_PREEMPT + [('maxwidth16', 'distinct'), ('aggregate', 'aggre
 # (BALANCES parses its template during compilation: every 6th preemption point in the quick tier)
 make_preempt('balancesA', 'balancesB', quick=400, thorough=1200, stride=6)
 make_preempt('opendates', 'opendates2', quick=300, thorough=900)
+make_preempt('order2', 'order2b', quick=300, thorough=900)
+make_preempt('convert', 'convert2', quick=300, thorough=900)
 make_preempt('baddate', 'trivial', with_parser=True)
 make_preempt('trivial', 'baddate', with_parser=True)
